@@ -223,7 +223,7 @@ pub fn run(tier: Tier, shard: Shard, stats: &mut Stats) {
     }
     // custom keys: receive the current state when written, ticked and reset together with the bar
     let mut seqs: Vec<Vec<u8>> = vec![vec![]];
-    let depth = if tier == Tier::Quick { 4 } else { 6 };
+    let depth = if tier == Tier::Quick { 4 } else { 7 };
     for _ in 0..depth {
         let mut next = Vec::new();
         for s in &seqs {
